@@ -837,6 +837,8 @@ namespace link_layer {
         bool                            termination_send_;
         std::uint16_t                   used_features_;
         bool                            pending_event_;
+        // a procedure was applied to the pending connection event (the pending event is the instant of the procedure)
+        bool                            procedure_applied_to_pending_event_;
         volatile bool                   restart_user_timer_requested_;
         std::uint8_t                    disconnecting_reason_;
 
@@ -952,6 +954,7 @@ namespace link_layer {
                 connection_parameters_request_use_signaling_channel_ = false;
                 phy_update_request_pending_             = false;
                 pending_event_                          = false;
+                procedure_applied_to_pending_event_     = false;
                 remote_versions_request_pending_        = false;
                 version_indication_received_            = false;
                 disconnecting_reason_                   = connection_timeout;
@@ -992,6 +995,7 @@ namespace link_layer {
     void link_layer< Server, ScheduledRadio, Options... >::timeout()
     {
         pending_event_ = false;
+        procedure_applied_to_pending_event_ = false;
 
         assert( state_ == state::connecting || state_ == state::connected || state_ == state::disconnecting || state_ == state::connection_changed );
 
@@ -1031,6 +1035,7 @@ namespace link_layer {
     void link_layer< Server, ScheduledRadio, Options... >::end_event( connection_event_events evts )
     {
         pending_event_ = false;
+        procedure_applied_to_pending_event_ = false;
 
         assert( state_ == state::connecting || state_ == state::connected || state_ == state::disconnecting || state_ == state::connection_changed );
 
@@ -1127,7 +1132,9 @@ namespace link_layer {
     void link_layer< Server, ScheduledRadio, Options... >::try_event_cancelation()
     {
         if ( ( state_ == state::connected || state_ == state::connecting )
-          && pending_event_ && this->reschedule_on_pending_data( *this, connection_interval_ ) )
+          // an event to which a procedure was already applied, can not be moved in front of the procedure's instant
+          && pending_event_ && !procedure_applied_to_pending_event_
+          && this->reschedule_on_pending_data( *this, connection_interval_ ) )
         {
             setup_next_connection_event();
         }
@@ -1730,6 +1737,8 @@ namespace link_layer {
 
         if ( !defered_ll_control_pdu_.empty() && defered_conn_event_counter_ == instance )
         {
+            procedure_applied_to_pending_event_ = true;
+
             const std::uint8_t* body   = layout_t::body( defered_ll_control_pdu_ ).first;
             const std::uint8_t  opcode = body[ 0 ];
 
